@@ -214,7 +214,7 @@ Fixpoint find_case (id : string) (cases : list (string * handler)) : option hand
   | (k, h) :: r => if String.eqb id k then Some h else find_case id r
   end.
 
-Definition sec_step (s : section) (st : St) (e : kv) : St * list diag :=
+Definition sec_dispatch (s : section) (st : St) (e : kv) : St * list diag :=
   match find_case (kv_id e) (sc_cases s) with
   | Some h => h st e
   | None =>
@@ -228,7 +228,7 @@ Fixpoint sec_fold (s : section) (st : St) (kvs : list kv) : St * list diag :=
   match kvs with
   | [] => (st, [])
   | e :: r =>
-      let '(st1, d1) := sec_step s st e in
+      let '(st1, d1) := sec_dispatch s st e in
       let '(st2, d2) := sec_fold s st1 r in
       (st2, d1 ++ d2)
   end.
